@@ -239,7 +239,14 @@ func (c18sink) DialUDP(network string, laddr, raddr *net.UDPAddr) (net.Conn, err
 			}
 			r := new(dns.Msg)
 			r.SetReply(q)
-			if q.Question[0].Qtype == dns.TypeA {
+			if s.cfg.Via == "bootstrap-referral" {
+				// a referral: no address for the name asked, the name servers of the parent zone
+				// in the authority section and their addresses (glue) in the additional section
+				r.Ns = append(r.Ns, &dns.NS{Hdr: dns.RR_Header{Name: "c18-parent.test.", Rrtype: dns.TypeNS, Class: dns.ClassINET, Ttl: 600}, Ns: "ns.c18-parent.test."})
+				r.Extra = append(r.Extra,
+					&dns.A{Hdr: dns.RR_Header{Name: "ns.c18-parent.test.", Rrtype: dns.TypeA, Class: dns.ClassINET, Ttl: 600}, A: net.ParseIP(c18glueAddr)},
+					&dns.AAAA{Hdr: dns.RR_Header{Name: "ns.c18-parent.test.", Rrtype: dns.TypeAAAA, Class: dns.ClassINET, Ttl: 600}, AAAA: net.ParseIP("2001:db8:66::66")})
+			} else if q.Question[0].Qtype == dns.TypeA {
 				r.Answer = append(r.Answer, &dns.A{Hdr: dns.RR_Header{Name: q.Question[0].Name, Rrtype: dns.TypeA, Class: dns.ClassINET, Ttl: 600},
 					A: net.ParseIP(c18bootAnswer)})
 			}
